@@ -175,7 +175,7 @@ Definition model_ok (c : c09case) : bool :=
 (* the property evaluated on what the implementation returned.
    0 holds; 1 panic; 2 decode(encode a) differs from a; 3 unmarshal(marshal) changed the block;
    4 value at a point differs; 5 counts differ; 6 an encode/view call failed on legal input;
-   7 (dedicated) MakeBlock refuses a block with an odd number of sub-blocks and >= 2 labels;
+   (7 retired: odd sub-block counts, repaired by C09-2-fix);
    8 run-length view differs; 9 binary view differs *)
 Definition legal_size (gx gy gz : N) : bool :=
   (2 <=? gx) && (gx <=? 128) && (2 <=? gy) && (gy <=? 128) && (2 <=? gz) && (gz <=? 128).
@@ -186,9 +186,7 @@ Definition spec_class (c : c09case) : nat :=
     let a := expand (8 * gx) (8 * gy) (8 * gz) ps in
     match go_bytes with
     | Panic => 1%nat
-    | Err => if legal_size gx gy gz then
-               (if N.odd (gx * gy * gz) && distinct_ge2 a then 7%nat else 6%nat)
-             else 0%nat
+    | Err => if legal_size gx gy gz then 6%nat else 0%nat
     | Ok _ =>
       if negb (go_dec =? digest a) then 2%nat
       else if negb (go_dec2 =? digest a) then 3%nat
@@ -202,8 +200,7 @@ Definition spec_class (c : c09case) : nat :=
     match go_bytes with
     | Panic => 1%nat
     | Err =>
-      if legal_size gx gy gz && (ox + 8 * gx <=? wx) && (oy + 8 * gy <=? wy) && (oz + 8 * gz <=? wz) then
-        (if N.odd (gx * gy * gz) then 7%nat else 6%nat)
+      if legal_size gx gy gz && (ox + 8 * gx <=? wx) && (oy + 8 * gy <=? wy) && (oz + 8 * gz <=? wz) then 6%nat
       else 0%nat
     | Ok _ =>
       match crop vol wx wy ox oy oz gx gy gz with
